@@ -850,24 +850,26 @@ func TestVerif_C29(t *testing.T) {
 	}
 	ops := c29Alphabet()
 	depth := vrt.Pick(r, 3, 4)
+	preDepth := vrt.Pick(r, 2, 4) // depth explored after the preamble
 	// second start state: a header that already holds a multi-valued name behind another name, and three cookies
 	preamble := []c29Op{{"Add", "X-B", "1"}, {"Add", "X-A", "1"}, {"Add", "X-A", "2"}, {"Add", "X-A", "close"}, {"SetCookie", "a", "1"}, {"SetCookie", "b", "1"}, {"SetCookie", "c", "1"}, {"Set", "Host", "h"}}
 	r.Rule(fmt.Sprintf("explicit-state BFS over RequestHeader and ResponseHeader, header-name normalisation on and off: all sequences of at most %d operations over {Set,Add}x%q x%q, Del x names, "+
 		"SetCookie{a,b}x{1,2}, DelCookie{a,b}, CopyTo (continue on the copy), write->read (continue on the header read back) (%d ops) from an empty header, and of at most %d operations after the preamble %v; "+
 		"states de-duplicated on the reference model's canonical state; every transition replays the parent's path on a fresh header and checks PeekAll, Peek, All, PeekKeys against the model "+
 		"(ordered multimap per canonical name; special names single-valued; cookies accumulate) and, for write->read, the non-framing field sequence before/after; "+
-		"non-trivial: states with two or more values under one name or two or more cookies", depth, c29Names, c29Values, len(ops), depth-1, preamble))
+		"non-trivial: states with two or more values under one name or two or more cookies", depth, c29Names, c29Values, len(ops), preDepth, preamble))
 	r.Assume("Set replaces the first value of an ordinary name and leaves further values of that name in place (literal reading of the statement; it matches the implementation)",
 		"framing fields (Content-Length, Transfer-Encoding, Connection), Date and default Content-Type values are outside the write->read comparison; after a read-back the model takes the framing fields over from the implementation",
 		"the order of fields of different names in All() is not compared with the model, only the order of the values under each name")
 	r.Set("max_depth", depth)
+	r.Set("max_depth_after_preamble", preDepth)
 	r.Set("ops_in_alphabet", len(ops))
 	type cfgT struct{ resp, normOff bool }
 	for _, cfg := range []cfgT{{false, false}, {true, false}, {false, true}, {true, true}} {
 		for si, pre := range [][]c29Op{nil, preamble} {
 			d := depth
 			if si == 1 {
-				d = depth - 1
+				d = preDepth
 			}
 			cfgName := fmt.Sprintf("%s/norm=%v/start%d", map[bool]string{false: "request", true: "response"}[cfg.resp], !cfg.normOff, si)
 			visited := newC29Set()
